@@ -96,6 +96,57 @@ def gen_hostile(rng, framer, units, single, other_pdus=None):
     return chunks, kinds, inert_only
 
 
+def gen_damaged_writes(rng, framer, units, single):
+    """reads in which every WRITE request has a damaged checksum (wrong value, or not even hexadecimal on ASCII) or is cut
+    short, each directly after a well-formed READ request in the same read — the place where a receiver that carries
+    state from one frame to the next goes wrong"""
+    hosted = [u for u, _ in units]
+    chunks, kinds = [], []
+    for _ in range(rng.choice([1, 2, 4])):
+        uid = rng.choice(hosted)
+        layout = dict(units)[uid]
+        rd, wr = None, None
+        for _ in range(200):
+            r = execlib.gen_req(rng, layout, [], 0.0)
+            if r['t'] in ('readCoils', 'readDiscrete', 'readHolding', 'readInput') and rd is None:
+                rd = r
+            elif r['t'] in ('writeCoil', 'writeRegister', 'writeCoils', 'writeRegisters', 'maskWrite') and wr is None:
+                wr = r
+            if rd and wr:
+                break
+        if not (rd and wr):
+            continue
+        good = serverlib.frame_request(framer, rd, uid, 0)
+        bad = list(serverlib.frame_request(framer, wr, uid, 0))
+        how = rng.choice(['wrong-checksum', 'nonhex-checksum', 'nonhex-unit', 'cut'])
+        if framer == 'ascii':
+            if how == 'wrong-checksum':
+                bad[-3] = ord('0') if bad[-3] != ord('0') else ord('1')
+            elif how == 'nonhex-checksum':
+                bad[-4], bad[-3] = ord('Z'), ord('Z')
+            elif how == 'nonhex-unit':
+                bad[1] = ord('G')
+            else:
+                bad = bad[:-4] + [13, 10]
+        elif framer == 'rtu':
+            if how == 'cut':
+                bad = bad[:-1]
+            else:
+                bad[-1] ^= 0x55
+        else:
+            if how == 'cut':
+                bad = bad[:-2] + [0x7D]
+            else:
+                bad[-2] ^= 0x55
+        if framer == 'binary' and any(b in (0x7B, 0x7D) for f in (good, bad) for b in f[1:-1]):
+            continue
+        chunks.append(list(good) + bad)
+        kinds.append('damaged-write-after-read:' + how)
+    if not chunks:
+        chunks, kinds = [[0]], ['inert']
+    return chunks, kinds
+
+
 def gen_probe(rng, framer, units, single, bcast):
     uid, layout = rng.choice(units)
     if single:
@@ -127,6 +178,9 @@ def gen_case(rng, frontend=None):
     ignore = rng.random() < 0.5
     bcast = rng.random() < 0.3 and fe not in ('twistedTcp', 'twistedUdp') and framer != 'tls'
     chunks, kinds, inert_only = gen_hostile(rng, framer, units, single)
+    if framer in ('rtu', 'ascii', 'binary') and rng.random() < 0.15:
+        chunks, kinds = gen_damaged_writes(rng, framer, units, single)
+        inert_only = True      # no checksum-valid write is among these bytes: the datastore must not change
     probe = gen_probe(rng, framer, units, single, bcast)
     if probe is None:
         return None
